@@ -363,6 +363,182 @@ fn run_liar(c: &LiarCase) -> CaseResult {
 }
 
 // ---------------------------------------------------------------------------------------------
+// scripted dialer: the harness plays a dialer by hand against the real stream-based listener. Unlike litep2p's and
+// rust-libp2p's dialers (which send the header together with the first proposal) it can negotiate in lockstep — header,
+// wait for the listener's header, then one proposal at a time — which the multistream-select specification allows.
+
+#[derive(Debug, Clone, Serialize, Deserialize)]
+pub struct ScriptedDialerCase {
+    /// proposals in order
+    pub dialer: Vec<u8>,
+    pub listener: Vec<u8>,
+    /// wait for the listener's header before the first proposal
+    pub lockstep: bool,
+    /// wait for the answer to each proposal before sending the next one (always true in lockstep)
+    pub one_at_a_time: bool,
+    pub payload: u16,
+    pub chunks: [ChunkScript; 2],
+}
+
+fn scripted_dialer_strategy() -> impl Strategy<Value = ScriptedDialerCase> {
+    let idx = prop_oneof![10 => 0u8..8, 2 => 8u8..11, 4 => 13u8..20];
+    (
+        prop::collection::vec(idx.clone(), 1..5).prop_map(dedup),
+        prop::collection::vec(idx, 1..5).prop_map(dedup),
+        any::<bool>(),
+        any::<bool>(),
+        prop_oneof![Just(0u16), Just(1), Just(300), Just(4000)],
+        [chunk_script_strategy(), chunk_script_strategy()],
+    )
+        .prop_map(|(dialer, listener, lockstep, one_at_a_time, payload, chunks)| ScriptedDialerCase { dialer, listener, lockstep, one_at_a_time, payload, chunks })
+}
+
+fn run_scripted_dialer(c: &ScriptedDialerCase) -> CaseResult {
+    let dnames: Vec<String> = c.dialer.iter().map(|i| name(*i)).collect();
+    let lnames: Vec<String> = c.listener.iter().map(|i| name(*i)).collect();
+    let expected = dnames.iter().find(|d| lnames.contains(d)).cloned();
+    let cfg = PipeCfg { a_to_b: c.chunks[0].clone(), b_to_a: c.chunks[1].clone(), ..Default::default() };
+    let payload = crate::engine::fill_bytes(c.payload as u64 + 7, c.payload as usize);
+    let (lockstep, one) = (c.lockstep, c.one_at_a_time || c.lockstep);
+    let (dn, ln, pl) = (dnames.clone(), lnames.clone(), payload.clone());
+    let joined = block_on_paused(async move {
+        let (mut a, b, _ab, _ba) = pipe(cfg);
+        let dial = async move {
+            // returns the name the listener confirmed (None = every proposal refused) and the echoed payload
+            a.write_all(&frame(b"/multistream/1.0.0\n")).await.map_err(|e| format!("{e:?}"))?;
+            a.flush().await.map_err(|e| format!("{e:?}"))?;
+            let mut header_seen = false;
+            if lockstep {
+                let h = read_ms_frame(&mut a).await.ok_or("listener closed before its header")?;
+                if h != b"/multistream/1.0.0\n" {
+                    return Err(format!("listener's first frame is not the header: {:?}", String::from_utf8_lossy(&h)));
+                }
+                header_seen = true;
+            }
+            let mut confirmed: Option<String> = None;
+            if one {
+                for p in &dn {
+                    a.write_all(&frame(format!("{p}\n").as_bytes())).await.map_err(|e| format!("{e:?}"))?;
+                    a.flush().await.map_err(|e| format!("{e:?}"))?;
+                    if !header_seen {
+                        let h = read_ms_frame(&mut a).await.ok_or("listener closed before its header")?;
+                        if h != b"/multistream/1.0.0\n" {
+                            return Err(format!("listener's first frame is not the header: {:?}", String::from_utf8_lossy(&h)));
+                        }
+                        header_seen = true;
+                    }
+                    let ans = read_ms_frame(&mut a).await.ok_or("listener closed instead of answering a proposal")?;
+                    if ans == format!("{p}\n").as_bytes() {
+                        confirmed = Some(p.clone());
+                        break;
+                    } else if ans != b"na\n" {
+                        return Err(format!("listener answered {:?} to the proposal {p}", String::from_utf8_lossy(&ans)));
+                    }
+                }
+            } else {
+                // all proposals pipelined; answers are read afterwards, the first confirmation wins
+                for p in &dn {
+                    a.write_all(&frame(format!("{p}\n").as_bytes())).await.map_err(|e| format!("{e:?}"))?;
+                }
+                a.flush().await.map_err(|e| format!("{e:?}"))?;
+                let h = read_ms_frame(&mut a).await.ok_or("listener closed before its header")?;
+                if h != b"/multistream/1.0.0\n" {
+                    return Err(format!("listener's first frame is not the header: {:?}", String::from_utf8_lossy(&h)));
+                }
+                for p in &dn {
+                    let Some(ans) = read_ms_frame(&mut a).await else { break };
+                    if ans == format!("{p}\n").as_bytes() {
+                        confirmed = Some(p.clone());
+                        break;
+                    } else if ans != b"na\n" {
+                        return Err(format!("listener answered {:?} to the proposal {p}", String::from_utf8_lossy(&ans)));
+                    }
+                }
+                if confirmed.is_some() {
+                    // pipelined proposals behind the confirmed one are application bytes for the listener now: not judged
+                    return Ok((confirmed, None));
+                }
+            }
+            let mut echoed = None;
+            if confirmed.is_some() {
+                a.write_all(&pl).await.map_err(|e| format!("{e:?}"))?;
+                a.flush().await.map_err(|e| format!("{e:?}"))?;
+                let mut back = vec![0u8; pl.len()];
+                a.read_exact(&mut back).await.map_err(|e| format!("payload echo: {e:?}"))?;
+                echoed = Some(back);
+            }
+            Ok::<_, String>((confirmed, echoed))
+        };
+        let listen = async move {
+            match ms::listener_select_proto(b, ln).await {
+                Ok((p, mut io)) => {
+                    // echo whatever the dialer sends after the negotiation
+                    let mut buf = vec![0u8; pl_len(&p)];
+                    let _ = buf.len();
+                    let mut got = Vec::new();
+                    let mut tmp = [0u8; 1024];
+                    loop {
+                        match io.read(&mut tmp).await {
+                            Ok(0) | Err(_) => break,
+                            Ok(n) => {
+                                got.extend_from_slice(&tmp[..n]);
+                                if io.write_all(&tmp[..n]).await.is_err() || io.flush().await.is_err() {
+                                    break;
+                                }
+                            }
+                        }
+                    }
+                    Ok((p, got))
+                }
+                Err(e) => Err(format!("{e:?}")),
+            }
+        };
+        tokio::time::timeout(Duration::from_secs(3600), async {
+            // the dialer finishes first and hangs up, which ends the listener's echo loop
+            let (d, l) = tokio::join!(
+                async {
+                    let r = dial.await;
+                    r
+                },
+                listen
+            );
+            (d, l)
+        })
+        .await
+    });
+    let Ok((d, l)) = joined else {
+        fail!("C03/negotiation-does-not-terminate", "scripted dialer (lockstep {}, one at a time {}) proposing {:?} to a listener supporting {:?}: both sides wait for ever", c.lockstep, c.one_at_a_time, dnames, lnames);
+    };
+    let d = match d {
+        Ok(v) => v,
+        Err(e) => fail!("C03/listener-broke-the-protocol-towards-a-scripted-dialer", "{e} (lockstep {}, proposals {:?}, supported {:?})", c.lockstep, dnames, lnames),
+    };
+    if one {
+        ensure!(d.0 == expected, "C03/scripted-dialer-and-model-disagree", "listener confirmed {:?}, the first proposal it supports is {:?}", d.0, expected);
+        match (&d.0, &l) {
+            (Some(p), Ok((lp, got))) => {
+                ensure!(lp == p, "C03/sides-disagree", "dialer got {p} confirmed, listener reports {lp}");
+                ensure!(d.1.as_deref() == Some(&payload[..]), "C03/payload-altered-after-negotiation", "{} bytes sent", payload.len());
+                ensure!(*got == payload, "C03/listener-application-bytes-differ", "listener read {} bytes, {} were sent", got.len(), payload.len());
+            }
+            (Some(p), Err(e)) => fail!("C03/sides-disagree", "dialer got {p} confirmed, listener failed with {e}"),
+            (None, Ok((lp, _))) => fail!("C03/sides-disagree", "every proposal was refused but the listener reports {lp}"),
+            (None, Err(_)) => {}
+        }
+    }
+    Ok(CaseOk::trivial()
+        .nt(c.lockstep || d.0.is_none())
+        .class_if(c.lockstep, "lockstep-dialer")
+        .class_if(!one, "pipelined-proposals")
+        .class_if(d.0.is_some(), "agreed")
+        .class_if(d.0.is_none(), "all-refused"))
+}
+
+fn pl_len(_p: &str) -> usize {
+    0
+}
+
+// ---------------------------------------------------------------------------------------------
 // message-based variant
 
 #[derive(Debug, Clone, Serialize, Deserialize)]
@@ -559,5 +735,6 @@ pub fn run(ctx: &mut Ctx) {
     let t = ctx.tier;
     ctx.campaign("stream", CampaignCfg::new(t.pick(30_000, 4_000_000)).shards(16), strategy, run_case);
     ctx.campaign("message", CampaignCfg::new(t.pick(60_000, 8_000_000)).shards(16), msg_strategy, run_msg);
+    ctx.campaign("scripted-dialer", CampaignCfg::new(t.pick(20_000, 2_000_000)).shards(16), scripted_dialer_strategy, run_scripted_dialer);
     ctx.campaign("lying-listener", CampaignCfg::new(t.pick(10_000, 2_000_000)).shards(16), liar_strategy, run_liar);
 }
